@@ -30,6 +30,8 @@ class TreeGen:
         self.maxdim = maxdim
         self.index_arrays = index_arrays
         self.scalar_types = scalar_types
+        self.leaf_any, self.leaf_sq = list(LEAF_ANY), list(LEAF_SQ)
+        self.comp_any, self.comp_sq = list(COMP_ANY), list(COMP_SQ)
 
     # ------------------------------------------------------------------ primitive draws
     def ok(self, k):
@@ -93,13 +95,16 @@ class TreeGen:
 
     # ------------------------------------------------------------------ generic trees
     def op(self, r, c, depth):
-        cands = [k for k in LEAF_ANY if self.ok(k)]
+        bias = [k for k in getattr(self, "bias_sq", ()) if self.ok(k)]
+        if r == c and bias and self.integer(1, 4) == 1:
+            return getattr(self, "k_" + self.pick(bias))(r, c, depth - 1)
+        cands = [k for k in self.leaf_any if self.ok(k)]
         if r == c:
-            cands += [k for k in LEAF_SQ if self.ok(k)]
+            cands += [k for k in self.leaf_sq if self.ok(k)]
         if depth > 0:
-            comp = [k for k in COMP_ANY if self.ok(k)]
+            comp = [k for k in self.comp_any if self.ok(k)]
             if r == c:
-                comp += [k for k in COMP_SQ if self.ok(k)]
+                comp += [k for k in self.comp_sq if self.ok(k)]
             comp = [k for k in comp if self.feasible(k, r, c)]
             # composites twice as likely as leaves while depth remains
             cands = cands + comp + comp
@@ -207,7 +212,9 @@ class TreeGen:
         return {"k": "sum", "via": self.pick(["op", "op", "ctor", "builtin"]), "ch": [self.op(r, c, d) for _ in range(nf)]}
 
     def k_kron(self, r, c, d):
-        a, b = self.pick(self.kron_splits(r, c))
+        splits = self.kron_splits(r, c)
+        sq = [(a, b) for a, b in splits if a == b and r // a == c // b]
+        a, b = self.pick(sq if sq and self.boolean() else splits)
         r2, c2 = r // a, c // b
         ch = [self.op(a, b, d)]
         if d > 0 and self.kron_splits(r2, c2) and self.boolean():
